@@ -226,22 +226,37 @@ class Ctx:
         return verdicts
 
     def reject(self, stage, module, cfg, rec, clause, site, tags):
+        """A reject may name several failing sites joined by ';'.  It is a known finding only
+        if EVERY site is matched by a listed finding; otherwise the unmatched sites are
+        reported as a violation."""
         tagset = set(t for t in str(tags).split(",") if t)
-        for f in self.findings:
-            if f["property"] != self.pid:
-                continue
-            if f.get("clause") not in (None, clause):
-                continue
-            if f.get("site") not in (None, site):
-                continue
-            if f.get("stage") not in (None, stage):
-                continue
-            if not set(f.get("tags", [])) <= tagset:
-                continue
+        sites = [x for x in str(site).split(";") if x] or [""]
+        matched, unmatched = [], []
+        for st in sites:
+            hit = None
+            for f in self.findings:
+                if f["property"] != self.pid:
+                    continue
+                if f.get("clause") not in (None, clause):
+                    continue
+                if f.get("site") not in (None, st):
+                    continue
+                if f.get("stage") not in (None, stage):
+                    continue
+                if not set(f.get("tags", [])) <= tagset:
+                    continue
+                hit = f
+                break
+            if hit is None:
+                unmatched.append(st)
+            else:
+                matched.append(hit)
+        for f in matched:
             self.known.append((f, rec["case"]))
-            return
-        self.rejects.append({"stage": stage, "module": module, "cfg": cfg, "record": rec,
-                             "clause": clause, "site": site, "tags": sorted(tagset)})
+        if unmatched:
+            self.rejects.append({"stage": stage, "module": module, "cfg": cfg, "record": rec,
+                                 "clause": clause, "site": ";".join(unmatched),
+                                 "tags": sorted(tagset)})
 
     # ---------------------------------------------------------------- finish
     def finish(self):
